@@ -372,12 +372,18 @@ func iBufString(in *Interp, fn *ssa.Function, a []Value) Value {
 		return in.mkStr("<nil>")
 	}
 	in.logAccess("rd", p)
-	return StrV{b: in.bytesOf(p.sub(0).load())}
+	bs := in.bytesOf(p.sub(0).load())
+	off := in.intOf(p.sub(1).load(), "bytes.Buffer.off")
+	if off > len(bs) {
+		off = len(bs)
+	}
+	return StrV{b: bs[off:]}
 }
 
 func iBufLen(in *Interp, fn *ssa.Function, a []Value) Value {
 	p := a[0].(PtrV)
-	return in.intTerm(len(in.bytesOf(p.sub(0).load())))
+	off := in.intOf(p.sub(1).load(), "bytes.Buffer.off")
+	return in.intTerm(len(in.bytesOf(p.sub(0).load())) - off)
 }
 
 // ---------- fmt
